@@ -81,11 +81,24 @@ def jobs_c10(prop, tier, seed):
                 execs.append((hdr, conv(beh[rng.randrange(len(beh))]) + ["eq 0 1"]))
             for k in range(2 if quick else 6):
                 execs.append((hdr, random_cmds(rng, 30)))
+    # containers over the type-erased any_std_allocator (no equality queries: any_std_allocator::operator== is the
+    # listed finding F10, shown by the dedicated execution below)
+    for c in ["vector", "deque", "list", "set", "map", "unordered_set"]:
+        for e in ["E8_8", "E24_8"]:
+            hdr = {"cont": c, "elem": e, "any": 1, "single": 1}
+            for k in range(2 if quick else 8):
+                execs.append((hdr, [x for x in conv(beh[rng.randrange(len(beh))]) if not x.startswith("eq")]))
+            for k in range(2 if quick else 6):
+                execs.append((hdr, [x for x in random_cmds(rng, 30) if not x.startswith(("eq", "spl"))]))
     hdr = {"cont": "string", "elem": "char"}
     for k in range(6 if quick else 40):
         execs.append((hdr, random_cmds(rng, 30)))
     execs.append(({"cont": "pool", "elem": "-", "n": 40}, []))
     execs.append(({"cont": "anyeq", "elem": "-"}, []))     # exhibits the listed open finding F10
+    # ... and what it does to a container: libstdc++ clears the target of a copy assignment before it takes the
+    # source's allocator only if the two allocators compare unequal; any_std_allocator compares equal always, so the
+    # old nodes are released through the new allocator object (same finding F10, matched by the kf tag)
+    execs.append(({"cont": "list", "elem": "E8_8", "any": 1, "kf": "F10"}, ["ins 0 3", "ins 1 2", "cas 0 1", "del 1", "del 0"]))
     return [Job("base", "containers", "ContainerTrace", execs, "containers")] + \
            ([Job("dbg", "containers", "ContainerTrace", execs[::3], "containers")] if not quick else [])
 
